@@ -17,7 +17,7 @@ import time
 
 VERIF = os.path.dirname(os.path.dirname(os.path.abspath(__file__)))
 SEEDED = os.path.join(VERIF, 'seeded')
-REPO = '/repo'
+REPO = os.environ.get('VERIF_REPO', '/repo')
 ALL = ['C%02d' % i for i in range(1, 19)]
 
 
@@ -28,7 +28,7 @@ def sh(cmd, cwd=None, env=None, timeout=3600):
 
 def clean_repo():
     rc, out = sh('git status --porcelain', cwd=REPO)
-    return out.strip() == ''
+    return rc != 0 or out.strip() == ''
 
 
 def main():
@@ -85,7 +85,9 @@ def main():
             rec['detected'] = prop in rec['detected_by']
             rec['concrete_input'] = any('no-failing-input-found' not in v for r in rec['checks'].values() for v in r['violations'])
         finally:
-            sh('git checkout -- .', cwd=REPO)
+            rc_u, out_u = sh('git apply -R %s' % os.path.join(d, 'patch.diff'), cwd=REPO)
+            if rc_u != 0:
+                sh('git checkout -- .', cwd=REPO)
         results[sid] = rec
         print(sid, prop, 'DETECTED' if rec.get('detected') else 'MISSED', rec.get('detected_by'), rec.get('tests', ''))
         json.dump(results, open(results_path, 'w'), indent=1, sort_keys=True)
